@@ -13,6 +13,9 @@ for d in sorted(glob.glob("/verif/seeded/*/meta.json")):
     how = "missed"
     for t in ("quick", "thorough"):
         v = tiers.get(t)
+        if v and v.get("not_judged"):
+            how = "NOT JUDGED (the hooked harness does not build against the patched tree: `./check` exits 1 `no-failing-input-found` on `problem[harness-build]`, which is not counted as a detection)"
+            break
         if v and v.get("exit"):
             kind = v.get("replay_kind") or ("no-failing-input-found" if any("no-failing-input-found" in l for l in v.get("lines", [v.get("line", "")])) else "failing-input")
             how = f"caught ({t}; {kind})"
